@@ -1721,6 +1721,12 @@ func (t *Topic) thisUserSub(sess *Session, pkt *ClientComMessage, asUid types.Ui
 			userData.modeWant = modeWant
 		}
 
+		if !userData.modeGiven.IsJoiner() {
+			// User is banned: reject the request before any change is applied or saved.
+			sess.queueOut(ErrPermissionDeniedReply(pkt, now))
+			return nil, errors.New("topic access denied; user is banned")
+		}
+
 		// Create a subscription object to notify plugins.
 		sub := types.Subscription{
 			User:  asUid.String(),
